@@ -81,15 +81,12 @@ RedecChecks(c, x, tab) ==
                        /\ tab[x.redec.text_noprefix.core] = c /\ x.redec.text_noprefix.eq),
           Chk("C13", "redecode_consumes_all", x.redec.bytes.kind = "ok" => x.redec.bytes.rest = 0)>>
 
-ExtChecks(c, x, tab) ==
+TypedChecks(c, x) ==
   LET ps == c.pairs
       idv == IdOf(ps)
       cl == ClientOf(ps)
       clAscii == cl = <<>> \/ (IsAscii(cl[1].n) /\ IsAscii(cl[1].v) /\ (cl[1].b # <<>> => IsAscii(cl[1].b[1])))
   IN <<Chk("C03", "ext_accessor_panics", x.panics = <<>>),
-       Chk("C12", "text_form", x.text = TextOf(c.enc)),
-       Chk("C12", "display_is_text", x.display = x.text),
-       Chk("C12", "json_is_quoted_text", x.json = <<34>> \o x.text \o <<34>>),
        Chk("C14", "ip4", x.ip4 = Ip4Of(ps)),
        Chk("C14", "ip6", x.ip6 = Ip6Of(ps)),
        Chk("C14", "tcp4", x.tcp4 = Tcp4Of(ps)),
@@ -105,7 +102,16 @@ ExtChecks(c, x, tab) ==
        Chk("C14", "id", (idv = <<>> \/ IsAscii(idv[1])) => x.id = idv),
        Chk("C14", "id_presence", (x.id = <<>>) = (idv = <<>>)),
        Chk("C14", "client_info", clAscii => x.client = cl),
-       Chk("C14", "client_info_presence", (x.client = <<>>) = (cl = <<>>)),
+       Chk("C14", "client_info_presence", (x.client = <<>>) = (cl = <<>>))>>
+
+ExtChecks(c, x, tab) ==
+  IF x.level = "typed" THEN TypedChecks(c, x)
+  ELSE
+  LET ps == c.pairs IN
+  TypedChecks(c, x)
+  \o <<Chk("C12", "text_form", x.text = TextOf(c.enc)),
+       Chk("C12", "display_is_text", x.display = x.text),
+       Chk("C12", "json_is_quoted_text", x.json = <<34>> \o x.text \o <<34>>),
        Chk("C14", "getters", GetterChecks(c, x)),
        Chk("C14", "absent_key_none", x.absent_none),
        Chk("C08", "into_iter_is_pairs", x.into_iter = ps),
@@ -248,8 +254,11 @@ CallChecks(e) ==
                        argpk |-> IF e.m = "set_public_key" THEN e.argpk ELSE <<>>,
                        fault |-> e.fault, siglen |-> SigLen(e)])
       ok == e.out.kind = "ok"
-  IN OutcomeRule(e, A.hard, A.soft, A)
-     \o <<Chk("C08", "update_must_succeed", (A.hard = {} /\ A.soft = {}) => ok)>>
+      \* "refused for size exactly when exceeded" is stated for the built-in 64-byte schemes only: with a
+      \* variable-length scheme a size refusal is admissible whenever the call could not know the final length
+      soft == A.soft \cup (IF KBase(e.kt) = "var" THEN {"ExceedsMaxSize"} ELSE {})
+  IN OutcomeRule(e, A.hard, soft, A)
+     \o <<Chk("C08", "update_must_succeed", (A.hard = {} /\ soft = {}) => ok)>>
      \o When(ok,
          <<Chk("C07", "seq_after_update", c.seq = A.seq),
            Chk("C08", "pairs_after_update", c.pairs = A.pairs),
@@ -265,8 +274,9 @@ BuildChecks(e) ==
       ok == e.out.kind = "ok"
       A == [overflow |-> FALSE, sizeErr |-> B.size > MaxSize, idErr |-> FALSE,
             typedErr |-> (B.hard \ {"SigningError", "ExceedsMaxSize"}) # {}]
-  IN OutcomeRule(e, B.hard, B.soft, A)
-     \o <<Chk("C08", "build_must_succeed", (B.hard = {} /\ B.soft = {}) => ok)>>
+      soft == B.soft \cup (IF KBase(e.kt) = "var" THEN {"ExceedsMaxSize"} ELSE {})
+  IN OutcomeRule(e, B.hard, soft, A)
+     \o <<Chk("C08", "build_must_succeed", (B.hard = {} /\ soft = {}) => ok)>>
      \o When(ok,
          LET c == e.tab[e.post] IN
          <<Chk("C07", "seq_of_built_record", c.seq = B.seq),
